@@ -90,3 +90,147 @@ Proof.
   - inversion E; subst. right. split; [reflexivity|]. split; [eapply steps_trans; eassumption|apply StepsRefl].
   - rewrite T in E. cbn [bindr] in E. inversion E; subst. left. split; reflexivity.
 Qed.
+
+(* ---------------------------------------------------------------- exitWith in the root scope itself *)
+(* the root frame, marked as finished by exitWith, with the handler's value on top of what it still held: it completes and hands
+   exactly that value over; nothing is left to run *)
+Lemma complete_dead_root r c f x top :
+  Good r c -> c_frames c = [f] -> f_pos f = S (length (f_code f)) -> f_die f = true ->
+  c_values c = x :: top -> f_base f = 0 ->
+  let c4 := set_values (set_frames c []) [x] in
+  Steps r (upd_cur r c4) /\ do_iter (upd_cur r c4) = Ok (Return REmpty (upd_cur r c4)).
+Proof.
+  intros G EF EP ED EV LB c4. pose proof G as (C & X & St & E & M & MR & SU).
+  assert (G4 : Good (upd_cur r c4) c4) by (apply (good_upd r c c4 G); exact SU).
+  split.
+  - apply steps_cont_upd.
+    unfold do_iter. rewrite X, C, SU, EF, St.
+    destruct frame_fuel_S as [k Hk]. rewrite Hk. cbn [frame_next]. rewrite EF.
+    assert (A1 : at_end f = true) by (unfold at_end; apply Nat.eqb_eq; lia).
+    rewrite A1.
+    set (c1 := set_frames c [f]).
+    assert (P : pop_value c1 = Some (x, set_values c1 top)).
+    { apply (pop_value_top c1 f []); [reflexivity|exact EV|lia]. }
+    destruct (f_exit f) as [b|]; [rewrite A1, ED; cbn [andb negb]|]; cbn [bindr]; rewrite E;
+      cbn [c_frames set_frames length]; rewrite Nat.eqb_refl; fold c1; rewrite P;
+      unfold clear_values, pop_frame; cbn [c_frames c1 set_frames c_values tl set_values];
+      rewrite LB, Nat.sub_0_r, skipn_all; unfold push_value; subst c4; cbn; reflexivity.
+  - destruct G4 as (C4 & X4 & _ & _ & _ & _ & SU4). unfold do_iter. rewrite X4, C4, SU4. reflexivity.
+Qed.
+
+(* what a program hands over when its root scope ends *)
+Definition root_value (out:bout) : list value :=
+  match out with BNorm RNone => [] | BNorm v => [cv v] | BExit v => [cv v] end.
+
+(* a block of the relation as (the rest of) the root frame's code: it runs, or is left by exitWith, and the root frame completes *)
+Theorem root_block : forall s reg b out s', zblock s reg b out s' ->
+  forall r c f pre, AtM s reg r c f [] [] -> Fresh c [] -> f_code f = pre ++ compile_block b -> f_pos f = length pre -> f_exit f = None ->
+  exists rf cf, Steps r rf /\ cur rf = Some cf /\ c_frames cf = [] /\ c_values cf = root_value out /\
+    r_nss rf = mnss (st_nss s') /\ do_iter rf = Ok (Return REmpty rf).
+Proof.
+  assert (FIN : forall s reg r c f, AtM s reg r c f [] [] -> f_pos f = length (f_code f) -> f_exit f = None ->
+            exists rf cf, Steps r rf /\ cur rf = Some cf /\ c_frames cf = [] /\ c_values cf = root_value (BNorm reg) /\
+              r_nss rf = mnss (st_nss s) /\ do_iter rf = Ok (Return REmpty rf)).
+  { intros s reg r c f ((G & EF & (F & N) & B & D) & LB & top & EV & RR) EP EX.
+    destruct (complete_root r c f top [] G EF EP EX EV LB) as [S2 T].
+    set (c4 := set_values (set_frames c []) (match top with [] => [] | x :: _ => [x] end)) in *.
+    exists (upd_cur r c4), c4. split; [exact S2|].
+    destruct G as (C1 & _). split; [eapply cur_upd_cur; exact C1|]. split; [reflexivity|]. split.
+    { cbn. destruct top as [|x top]; cbn in RR.
+      - rewrite RR. reflexivity.
+      - destruct RR as (-> & NN & _). destruct reg; try reflexivity. exfalso. apply NN. reflexivity. }
+    split; [rewrite nss_upd_cur; exact N|exact T]. }
+  induction 1 as [s reg|s reg st reg1 s1 HS|s reg st reg1 s1 st2 rest0 out s' HS HB IHb|s reg n l x b s1 s2 out s3 rest0 HN HL HX HB _];
+    intros r c f pre A FR EC EP EX.
+  - (* nothing left *) apply (FIN s reg r c f A); [|exact EX].
+    rewrite EP, EC. unfold compile_block. cbn [compile_block_from]. rewrite app_nil_r. reflexivity.
+  - (* the last statement *)
+    unfold compile_block in EC. cbn [compile_block_from app] in EC.
+    destruct (proj1 (proj2 (proj2 vm_runs_z)) s reg st reg1 s1 HS r c f [] [] pre [] A FR EC EP) as (r1 & c1 & f1 & rest1 & S1 & A1 & MV1 & P1 & K1).
+    inversion K1; subst.
+    destruct (FIN s1 reg1 r1 c1 f1 A1) as (rf & cf & S2 & R2).
+    { rewrite P1, EP, (moved_code _ _ MV1), EC, !app_length. cbn. lia. } { rewrite (moved_exit _ _ MV1). exact EX. }
+    exists rf, cf. split; [eapply steps_trans; eassumption|exact R2].
+  - (* a statement, then the rest *)
+    rewrite compile_block_cons2 in EC.
+    destruct (proj1 (proj2 (proj2 vm_runs_z)) s reg st reg1 s1 HS r c f [] [] pre _ A FR EC EP) as (r1 & c1 & f1 & rest1 & S1 & A1 & MV1 & P1 & K1).
+    inversion K1; subst.
+    assert (EC1 : f_code f1 = (pre ++ compile_stmt st) ++ IEnd :: compile_block (st2 :: rest0)).
+    { rewrite (moved_code _ _ MV1), EC, <- app_assoc. reflexivity. }
+    assert (EP1 : f_pos f1 = length (pre ++ compile_stmt st)) by (rewrite app_length, P1, EP; reflexivity).
+    destruct (end_run s1 reg1 r1 c1 f1 [] [] _ _ A1 EC1 EP1) as (r2 & c2 & S2 & A2 & FR2).
+    destruct (IHb r2 c2 (set_pos f1 (S (f_pos f1))) (pre ++ compile_stmt st ++ [IEnd]) A2 FR2) as (rf & cf & S3 & R3).
+    { cbn [set_pos f_code]. rewrite EC1, <- !app_assoc. reflexivity. }
+    { cbn [set_pos f_pos]. rewrite EP1, !app_length. cbn. lia. }
+    { cbn [set_pos f_exit]. rewrite (moved_exit _ _ MV1). exact EX. }
+    exists rf, cf. split; [eapply steps_trans; [exact S1|eapply steps_trans; [exact S2|exact S3]]|exact R3].
+  - (* if true exitWith {..} in the root scope *)
+    destruct A as (MA & LB & top & EV & RR).
+    rewrite compile_block_exit in EC.
+    pose proof (proj1 vm_runs_z) as EVX.
+    post_intro (EVX s l (RIf true) s1 HL r c f [] pre _ MA EC EP) r1 c1 f1 rest1 S1 M1 EV1 MV1 P1 K1.
+    destruct (after_operands_code f f1 pre _ _ MV1 EC EP P1) as [EC1 EP1].
+    post_intro (EVX s1 x (RCode b) s2 HX r1 c1 f1 rest1 (pre ++ compile_expr l) _ M1 EC1 EP1) r2 c2 f2 rest2 S2 M2 EV2 MV2 P2 K2.
+    destruct (after_operands_code f1 f2 _ _ _ MV2 EC1 EP1 P2) as [EC2 EP2].
+    destruct M2 as (G2 & EF2 & MM2 & B2 & D2). destruct MA as (_ & _ & _ & B & _).
+    rewrite EV1 in EV2.
+    assert (KK : Forall2 kept [] rest2) by (eapply kept_all_trans; eassumption).
+    inversion KK; subst.
+    set (c0 := set_values (set_frames c2 [set_pos f2 (S (f_pos f2))]) (c_values c)).
+    set (fdie := set_die (set_pos (set_pos f2 (S (f_pos f2))) (S (length (f_code f2)))) true).
+    set (cX := push_frame (upd_top c0 (fun f => set_die (set_pos f (S (length (f_code f)))) true))
+                          (mk_frame (cur_ns c0) (compile_block b) None None [])).
+    destruct (binary_run r2 c2 f2 [] _ _ (lower n) (cv (RIf true)) (cv (RCode b)) (c_values c) cX VNil G2 EF2 EC2 EP2 EV2) as [S3 G3].
+    { rewrite (moved_base _ _ MV2), (moved_base _ _ MV1); exact B. } { discriminate. } { discriminate. } { rewrite lower_idem, HN. reflexivity. }
+    { destruct G2 as (_ & _ & _ & _ & _ & _ & SU); exact SU. }
+    set (nf := set_base (mk_frame (cur_ns c0) (compile_block b) None None []) (length (c_values c))).
+    assert (A3 : AtM (enter s2 []) RNil (upd_cur r2 (push_value cX VNil)) (push_value cX VNil) nf [fdie] (c_values c)).
+    { split.
+      - split; [exact G3|]. split; [reflexivity|]. split.
+        + apply match_upd. destruct MM2 as [F N]. split; [|exact N]. cbn. inversion F as [|sc f0 scs fs FM F' E1 E2]; subst.
+          constructor; [|constructor; [exact FM|exact F']].
+          split; [intros k; reflexivity|split; [|reflexivity]]. cbn. destruct FM as (_ & NS & _). unfold cur_ns_of. rewrite <- E1. exact NS.
+        + split; [cbn; lia|rewrite quirks_upd_cur; exact D2].
+      - split; [reflexivity|]. exists [VNil]. split; [reflexivity|]. split; [reflexivity|]. split; [discriminate|left; reflexivity]. }
+    pose proof (proj1 (proj2 (proj2 (proj2 vm_runs_z))) (enter s2 []) RNil b out s3 HB) as BE.
+    destruct (scope_ends_of_body _ _ _ _ _ BE _ _ nf fdie [] (c_values c) [] A3 (or_intror eq_refl) eq_refl eq_refl eq_refl) as (r4 & c4 & fd4 & rest4 & S4 & M4 & EV4 & K4 & KR4).
+    { cbn. rewrite (moved_base _ _ MV2), (moved_base _ _ MV1); exact B. }
+    inversion KR4; subst.
+    destruct M4 as (G4 & EF4 & (F4 & N4) & B4 & D4).
+    destruct (complete_dead_root r4 c4 fd4 (cv (val_of out)) (c_values c) G4 EF4) as [S5 T].
+    { rewrite (kept_pos _ _ K4), (kept_code _ _ K4). reflexivity. }
+    { rewrite (kept_die _ _ K4). reflexivity. }
+    { exact EV4. }
+    { rewrite (kept_base _ _ K4). cbn. rewrite (moved_base _ _ MV2), (moved_base _ _ MV1), <- LB. reflexivity. }
+    set (c5 := set_values (set_frames c4 []) [cv (val_of out)]) in *.
+    exists (upd_cur r4 c5), c5.
+    split; [eapply steps_trans; [exact S1|eapply steps_trans; [exact S2|eapply steps_trans; [exact S3|eapply steps_trans; [exact S4|exact S5]]]]|].
+    destruct G4 as (C4 & _). split; [eapply cur_upd_cur; exact C4|]. split; [reflexivity|]. split; [reflexivity|].
+    split; [rewrite nss_upd_cur; exact N4|exact T].
+Qed.
+
+(* a whole program whose root scope may be left by exitWith *)
+Theorem program_run_exit s p out s' r c f :
+  zblock s RNone p out s' ->
+  AtM s RNone r c f [] [] -> f_code f = compile_block p -> f_pos f = 0 -> f_exit f = None ->
+  exists rf cf,
+    Steps r rf /\ cur rf = Some cf /\ c_frames cf = [] /\ c_values cf = root_value out /\
+    r_nss rf = mnss (st_nss s') /\
+    do_iter rf = Ok (Return REmpty rf) /\
+    forall fuel n x r', execute_do fuel r n = Ok (x, r') ->
+      (x = REmpty /\ r' = rf) \/ (x = ROk /\ Steps r r' /\ Steps r' rf).
+Proof.
+  intros HB A EC EP EX.
+  assert (FR : Fresh c []).
+  { destruct A as (_ & _ & top & EV & RR). left. destruct top as [|x t]; [rewrite EV; reflexivity|]. destruct RR as (_ & N & _). exfalso. apply N. reflexivity. }
+  destruct (root_block s RNone p out s' HB r c f [] A FR EC EP EX) as (rf & cf & S1 & C1 & F1 & V1 & N1 & T).
+  exists rf, cf. split; [exact S1|]. split; [exact C1|]. split; [exact F1|]. split; [exact V1|]. split; [exact N1|]. split; [exact T|].
+  intros fuel n x r' H.
+  destruct (execute_do_follows r rf S1 fuel n x r' H) as [(f2 & n2 & _ & _ & E)|Q]; [|right; exact Q].
+  destruct f2 as [|f2]; [discriminate E|]. cbn [execute_do] in E.
+  destruct (r_exit_req rf) eqn:XR.
+  { exfalso. unfold do_iter in T. rewrite XR in T. inversion T. }
+  destruct n2 as [|n2].
+  - inversion E; subst. right. split; [reflexivity|]. split; [exact S1|apply StepsRefl].
+  - rewrite T in E. cbn [bindr] in E. inversion E; subst. left. split; reflexivity.
+Qed.
